@@ -9,7 +9,7 @@ EU rule (directive 2000/84/EC, in this form since 1996): summer time (CEST, UTC+
 """
 from __future__ import annotations
 
-from typing import List, Optional, Tuple
+from typing import List, Tuple
 
 DAY = 86400
 CET, CEST = 3600, 7200
